@@ -90,6 +90,18 @@ def c08(rec):
     n0, n1 = d(pre["names"]), d(post["names"])
     acc = canon_of(pre)
     creator = v["creator"]
+    # a sale listing is its creator's: it comes into being by a List message of the account it names,
+    # and no message rewrites whose listing it is
+    s0, s1 = d(pre["forsale"]), d(post["forsale"])
+    for key, l1 in s1.items():
+        l0 = s0.get(key)
+        if l0 is None:
+            if not (k == "list" and acc(l1["owner"]) == acc(creator)):
+                out.append({"sig": {"prop": "C08", "kind": "listing-not-created-by-its-owner", "op": k},
+                            "what": f"{k} signed by {creator} created a sale listing of {key} in the name of {l1['owner']}"})
+        elif acc(l0["owner"]) != acc(l1["owner"]) and not (k == "list" and acc(l1["owner"]) == acc(creator)):
+            out.append({"sig": {"prop": "C08", "kind": "listing-owner-rewritten", "op": k},
+                        "what": f"{k} signed by {creator} turned the sale listing of {key} made by {l0['owner']} into a listing of {l1['owner']}, who never listed the name"})
     for key, w in n0.items():
         if h > w["expires"]:
             continue  # not live
